@@ -68,8 +68,8 @@ type gRow struct {
 	Dh  []int      `json:"dh"`
 	Cm  [][]any    `json:"cm"` // [value, cmp(this value, that value)] for every ranked value
 	cmp map[string]int
-	Rs  []string   `json:"rs"`
-	Nd  []gNeedle  `json:"nd"`
+	Rs  []string  `json:"rs"`
+	Nd  []gNeedle `json:"nd"`
 }
 
 type symFacts struct {
